@@ -115,8 +115,9 @@ structure DS where
 /-- a thread item; for a load item also its raw rule list (`x` = pass-through rule of the custom strategy) -/
 def parseItem? (s : DS) (tok : String) : Option (WCall × Option (List String) × DS) :=
   match tok.splitOn ":" with
-  | ["tp"] => some (.check false, none, s)
-  | ["tpb"] => some (.check true, none, s)
+  | ["tp"] => some (.check false false, none, s)
+  | ["tpb"] => some (.check true false, none, s)
+  | ["tpn"] => some (.check false true, none, s)
   | ["c", rt, "ok"] => rt.toNat?.map fun r => (.complete r false, none, s)
   | ["c", rt, "err"] => rt.toNat?.map fun r => (.complete r true, none, s)
   | "rd" :: rest =>
@@ -167,7 +168,7 @@ def token (i : Nat) (frm : String) (w w' : World) (t t' : WT) : String :=
     s!":W{k},{stc s.st},{dls s.deadline},{s.probe}"
   let p := if w'.cur ≠ w.cur then s!":P{listS w'.cur}" else ""
   let started := (t.todo.take (t.todo.length - t'.todo.length)).filter fun c =>
-    match c with | .check _ => true | .complete .. => true | _ => false
+    match c with | .check .. => true | .complete .. => true | _ => false
   let ss := started.map fun _ => s!":S{listS w'.cur}"
   let ns := (List.range (w'.objs.length - w.objs.length)).map fun d =>
     let k := w.objs.length + d
@@ -380,6 +381,7 @@ structure OS where
   rules : List (Nat × Nat × Nat) := []          -- object ↦ (timeout, probeNum) of the rule it was built from
   pub : List Nat := [0]                         -- the published breaker list
   snapOf : List (Nat × List Nat) := []          -- thread ↦ the snapshot its check under way walks over
+  won : List (Nat × Nat) := []                  -- (thread, object): probes won by the thread's entry under way
   owed : List Note := []
   log : List Note := []
   ress : List (Nat × Bool) := []
@@ -434,6 +436,11 @@ def judgeRec (o : OS) (r : Rec) : OS :=
       let o := flag o (r.frm ≠ "sc") s!"state word of breaker object {k} changed at {r.frm}, not at a CAS"
       let o := flag o (r.frm = "sc" ∧ !legal oo.st st) s!"illegal edge {stc oo.st}>{stc st}"
       let o := { o with owed := o.owed ++ [n] }
+      -- the exit hook of an entry rolls back only a breaker that this entry itself probed (never another breaker)
+      let rollback := oo.st = St.halfOpen ∧ st = St.opened ∧ r.frm = "sc" ∧ ¬ (r.to = "rs" ∨ r.to = "pr")
+      let o := flag o (rollback ∧ !o.won.contains (r.tid, k))
+        s!"breaker object {k} was rolled back HalfOpen>Open by thread {r.tid}, whose entry did not probe that breaker"
+      let o := if oo.st = St.opened ∧ st = St.halfOpen then { o with won := (r.tid, k) :: o.won } else o
       let opening := st = St.opened ∧ (r.to = "rs" ∨ r.to = "pr")     -- fromClosedToOpen / fromHalfOpenToOpen (not the rollback)
       let oo' := if opening then { oo with st := st, openedAt := r.clk, epoch := oo.epoch + 1, fresh := false } else { oo with st := st }
       let o := setOO o k oo'
@@ -469,6 +476,7 @@ def judgeRec (o : OS) (r : Rec) : OS :=
       else { o with log := o.log ++ [n],
                     nfBad := orElse o.nfBad (some s!"listener call {noteS n} without a CAS won by that thread with that prev") }) o
   -- results of checks: `true` is produced by the TryPass of the last breaker of the snapshot (or by an empty list)
+  let o := if r.snaps.isEmpty then o else { o with won := o.won.filter fun p => p.1 ≠ r.tid }
   let inCall := !(r.frm == "start" || r.frm == "rd" || r.frm == "rb" || r.frm == "done")
   ((r.ress.foldl (fun (p : OS × Bool) (b : Bool) =>
       let (o, first) := p
@@ -514,7 +522,7 @@ def stepOracle (s : OD) (ts : List String) (line : String) : OD × Option String
       | none => (s, some "bad unreadable trace")
       | some recs =>
         let o0 : OS := match s.os with
-          | some o => { o with ress := [], loads := [], snapOf := [] }
+          | some o => { o with ress := [], loads := [], snapOf := [], won := [] }
           | none => { rules := [(0, s.timeout, s.probeNum)] }
         let o := recs.foldl judgeRec o0
         ({ s with os := some o, lastN := s.nthreads, nthreads := 0 }, some (verdict o.trBad))
